@@ -52,7 +52,8 @@ RULE = {
         "option palette (minPos, maxPos, nodeSpacing, lineSpacing, density, stubWidth, algorithm) and a "
         "history of 6-14 operations over up to 3 engines: NEW_ENGINE, CONFIG, SET_LABELS(fresh|same|"
         "permuted|handed over from another engine), COMPUTE, DISTRIBUTE, plus faults ABORT_COMPUTE "
-        "(SimAbort raised at a seeded fraction of the call's executed lines inside labella), "
+        "(SimAbort/KeyboardInterrupt/MemoryError raised at a seeded fraction of the call's executed lines inside "
+        "labella, optionally restricted to one file or to lambdas), "
         "STACK_LIMIT_COMPUTE (recursion budget lowered to depth+5..80 -> genuine RecursionError), STALE "
         "(junk positions / layer numbers / stub chains). After every completed compute the map "
         "(idealPos,width)->sorted[(layerIndex,currentPos)] must equal that of a fresh Force on fresh "
